@@ -88,6 +88,8 @@ def _encode(a, style, text='T', force=True):
 
 def _decode(a, raw: str, rx):
     fn = a.p.func(f'{STYLE}.from_raw')
+    cls = Obj()
+    style_methods = {n: m for n, m in a.p.cls(STYLE).methods.items() if n not in ('parse_fmt', 'from_raw')}
     sgr, ansi = re.compile(rx['SGR_RE']), re.compile(rx['ANSI_RE'])
 
     def methods(recv, name, args, kwargs):
@@ -97,10 +99,13 @@ def _decode(a, raw: str, rx):
             return recv.group(*args)
         if isinstance(recv, Obj) and name == 'parse_fmt':
             return {'text': args[0], **kwargs}
+        if recv is cls and name in style_methods:
+            m = style_methods[name]
+            static = any(d.split('.')[-1] == 'staticmethod' for d in m.decorators)
+            return ev.call_function(m.node, list(args) if static else [cls, *args], kwargs)
         return NotImplemented
 
     ev = _with_helpers(a, _Ev({'RGB': RGBv, 'SGR_RE': sgr, 'ANSI_RE': ansi}, calls={'tty_unescape': lambda s: s}, methods=methods))
-    cls = Obj()
     return ev.call_function(fn.node, [cls, raw])
 
 
